@@ -134,6 +134,21 @@ impl Device {
         })
     }
 
+    /// Attachments for the archive / upgrade comparisons: a file secret
+    /// that owns two blobs (values::v9) in the default folder and, when it
+    /// exists, in the user folder.  Account.tla has no blob state: this step
+    /// is outside the model and happens right before the export / upgrade.
+    pub async fn add_attachments(&mut self, out: &mut Summary) -> Result<()> {
+        for f in ["d", "f1"] {
+            if let Some(fid) = self.folders.get(f).copied() {
+                let (meta, secret) = values::value("v9");
+                self.account.create_secret(meta, secret, (&fid).into()).await?;
+                out.count("attachment_secrets_created", 1);
+            }
+        }
+        Ok(())
+    }
+
     fn fid(&self, f: &str) -> Result<VaultId> {
         self.folders
             .get(f)
@@ -1198,6 +1213,7 @@ pub async fn run_path(
                 "C19" => {
                     let mut v = Vec::new();
                     if n + 1 == steps.len() && path["upgrade"] != "none" {
+                        dev.add_attachments(out).await?;
                         crate::archive_world::c19_check(dev, scratch, out, &mut v).await?;
                     }
                     if !problems.is_empty() && v.is_empty() {
@@ -1209,6 +1225,7 @@ pub async fn run_path(
                 "C18" => {
                     let mut v = Vec::new();
                     if n + 1 == steps.len() && path["archive"] != "none" {
+                        dev.add_attachments(out).await?;
                         crate::archive_world::c18_check(dev, scratch, path["archive"] == "thorough", out, &mut v)
                             .await?;
                     }
